@@ -139,6 +139,11 @@ fn shapes(src: &mut Src, obs: &mut Obs, qrank: usize, ntrail: usize) -> (Vec<usi
             break;
         }
     }
+    // rarely many lanes (with a small query)
+    if ntrail > 0 && !trailing.contains(&0) && product(&qshape) <= 8 && src.chance(1, 40) {
+        trailing[0] = src.usize_in(32, 70);
+        obs.class("lanes:32+");
+    }
     (qshape, trailing)
 }
 
@@ -193,6 +198,20 @@ fn run1<T: Flt>(src: &mut Src, obs: &mut Obs, qd: QDim, qrank: usize, dd: DDim, 
     } else {
         distinct_queries::<T>(src, &x, qlen)
     };
+    let mut qs = qs;
+    if !axis_prefix && qs.len() >= 2 {
+        match src.below(6) {
+            0 => {
+                qs.sort_by(|a, b| a.partial_cmp(b).unwrap());
+                obs.class("query:ascending");
+            }
+            1 => {
+                qs.sort_by(|a, b| b.partial_cmp(a).unwrap());
+                obs.class("query:descending");
+            }
+            _ => {}
+        }
+    }
     let qlay = crate::layout::pick_lay(src);
     if qlay.0 != crate::layout::Layout::C {
         obs.class("query:nonstandard-layout");
